@@ -498,5 +498,6 @@ func TraceOf(r *Runner, base string, tape *sim.Tape, procs int) (string, error) 
 	for _, op := range co.Trace {
 		fmt.Fprintf(&sb, "%d %s %d %s\n", op.Seq, op.Op, op.N, op.Err)
 	}
-	return sb.String(), nil
+	// the scratch directory differs from process to process; absolute names below it do not
+	return strings.ReplaceAll(sb.String(), filepath.Join(work, "root"), "@ROOT@"), nil
 }
